@@ -149,7 +149,8 @@ func Harness_C20op(arg int) {
 // Harness_C20free: symbolic bytes from the characters that mean something to
 // either front end, inserted into a concrete text - between tokens, inside a
 // multi-line comment, a line comment, after a label, inside a class, inside a
-// string, inside a code block, inside a raw string. Whatever the hole contains: if the bootstrap front end accepts the
+// string, inside a code block, inside a raw string, directly behind a literal
+// and directly behind a class (where an i suffix may or may not follow). Whatever the hole contains: if the bootstrap front end accepts the
 // text, pigeon accepts it and builds the same AST.
 var c20Free = [][2]string{
 	{"A <- 'a' ", " 'c'\n"},
@@ -160,6 +161,8 @@ var c20Free = [][2]string{
 	{"A <- \"a", "\" 'c'\n"},
 	{"A <- 'a' {", " return nil, nil }\nB <- 'b'\n"},
 	{"A <- `a", "` 'c'\n"},
+	{"A <- 'a'", " 'c'\n"},
+	{"A <- [a]", " 'c'\n"},
 }
 
 const c20FreeAlphabet = "/*'\"aB()[]<-=:;{}?+!&.^\\i \n\r`"
